@@ -1,0 +1,154 @@
+//! Verification hooks, compiled only under `--cfg rustls_rcgen_verif`.
+//!
+//! Everything in here is a forwarding function or a plain constructor: it gives an
+//! external harness crate access to crate-private units without adding any logic.
+#![allow(missing_docs, unreachable_pub)]
+
+use time::OffsetDateTime;
+use yasna::{DERWriter, DERWriterSeq};
+
+pub use crate::certificate::verif_hooks_certificate::*;
+pub use crate::crl::verif_hooks_crl::*;
+pub use crate::csr::verif_hooks_csr::*;
+use crate::key_pair::{KeyPairKind, PublicKeyData};
+use crate::{
+	Certificate, CertificateParams, DistinguishedName, DnType, Error, IsCa, KeyIdMethod, KeyPair,
+	KeyUsagePurpose, RemoteKeyPair, SanType, SignatureAlgorithm,
+};
+
+/// Certificate parameters with an empty distinguished name, the given validity and a
+/// pre-specified (empty) key identifier; every other field as in `Default`.
+pub fn params_empty(not_before: OffsetDateTime, not_after: OffsetDateTime) -> CertificateParams {
+	CertificateParams {
+		not_before,
+		not_after,
+		serial_number: None,
+		subject_alt_names: Vec::new(),
+		distinguished_name: DistinguishedName::new(),
+		is_ca: IsCa::NoCa,
+		key_usages: Vec::new(),
+		extended_key_usages: Vec::new(),
+		name_constraints: None,
+		crl_distribution_points: Vec::new(),
+		custom_extensions: Vec::new(),
+		use_authority_key_identifier_extension: false,
+		key_identifier_method: KeyIdMethod::PreSpecified(Vec::new()),
+	}
+}
+
+pub fn certificate_from_parts(
+	params: CertificateParams,
+	subject_public_key_info: Vec<u8>,
+	der: Vec<u8>,
+) -> Certificate {
+	Certificate {
+		params,
+		subject_public_key_info,
+		der: der.into(),
+	}
+}
+
+pub fn certificate_spki(cert: &Certificate) -> &[u8] {
+	&cert.subject_public_key_info
+}
+
+/// A remote key pair that additionally carries `secret` as its stored key document.
+pub fn keypair_remote_with_secret(
+	remote: Box<dyn RemoteKeyPair + Send + Sync>,
+	secret: Vec<u8>,
+) -> KeyPair {
+	KeyPair {
+		alg: remote.algorithm(),
+		kind: KeyPairKind::Remote(remote),
+		serialized_der: secret,
+	}
+}
+
+pub fn sign_der(
+	key: &KeyPair,
+	f: impl FnOnce(&mut DERWriterSeq<'_>) -> Result<(), Error>,
+) -> Result<Vec<u8>, Error> {
+	key.sign_der(f)
+}
+
+pub fn sign(key: &KeyPair, msg: &[u8], writer: DERWriter) -> Result<(), Error> {
+	key.sign(msg, writer)
+}
+
+pub fn serialize_public_key_der(key: &impl PublicKeyData, writer: DERWriter) {
+	crate::key_pair::serialize_public_key_der(key, writer)
+}
+
+pub fn write_dt_utc_or_generalized(writer: DERWriter, dt: OffsetDateTime) {
+	crate::write_dt_utc_or_generalized(writer, dt)
+}
+
+pub fn write_generalized(writer: DERWriter, dt: OffsetDateTime) {
+	writer.write_generalized_time(&crate::dt_to_generalized(dt))
+}
+
+pub fn write_distinguished_name(writer: DERWriter, dn: &DistinguishedName) {
+	crate::write_distinguished_name(writer, dn)
+}
+
+pub fn write_x509_extension(
+	writer: DERWriter,
+	extension_oid: &[u64],
+	is_critical: bool,
+	value_serializer: impl FnOnce(DERWriter),
+) {
+	crate::write_x509_extension(writer, extension_oid, is_critical, value_serializer)
+}
+
+pub fn write_x509_authority_key_identifier(writer: DERWriter, aki: Vec<u8>) {
+	crate::write_x509_authority_key_identifier(writer, aki)
+}
+
+pub fn key_usage_to_u16(purpose: &KeyUsagePurpose) -> u16 {
+	purpose.to_u16()
+}
+
+#[cfg(feature = "x509-parser")]
+pub fn key_usage_from_u16(value: u16) -> Vec<KeyUsagePurpose> {
+	KeyUsagePurpose::from_u16(value)
+}
+
+pub fn key_id_derive(method: &KeyIdMethod, spki: &[u8]) -> Vec<u8> {
+	method.derive(spki)
+}
+
+pub fn san_tag(san: &SanType) -> u64 {
+	san.tag()
+}
+
+#[cfg(feature = "x509-parser")]
+pub fn ip_addr_from_octets(octets: &[u8]) -> Result<std::net::IpAddr, Error> {
+	crate::ip_addr_from_octets(octets)
+}
+
+#[cfg(feature = "x509-parser")]
+pub fn san_try_from_general(
+	name: &x509_parser::extensions::GeneralName<'_>,
+) -> Result<SanType, Error> {
+	SanType::try_from_general(name)
+}
+
+pub fn dn_type_to_oid(ty: &DnType) -> Vec<u64> {
+	ty.to_oid().components().clone()
+}
+
+pub fn signature_algorithms() -> std::slice::Iter<'static, &'static SignatureAlgorithm> {
+	SignatureAlgorithm::iter()
+}
+
+pub fn rsa_pss_sha256() -> &'static SignatureAlgorithm {
+	&crate::sign_algo::algo::PKCS_RSA_PSS_SHA256
+}
+
+pub fn write_alg_ident(alg: &SignatureAlgorithm, writer: DERWriter) {
+	alg.write_alg_ident(writer)
+}
+
+pub fn write_oids_sign_alg(alg: &SignatureAlgorithm, writer: DERWriter) {
+	alg.write_oids_sign_alg(writer)
+}
